@@ -60,6 +60,7 @@ func CheckRun(rep *vh.Report, run *Run, sc any) {
 		}
 		return nb, ok
 	}
+	checkRetained(rep, run, sc)
 	if run.Runaway != "" {
 		rep.Violate("monitor:runaway-retries", "retry loop without pacing: "+run.Runaway+"; responses that must be retried are retried after the back-off "+
 			"(at least 1 s after 429/503/transport errors), so no admissible run sends this many requests", map[string]any{"scenario": sc})
